@@ -41,11 +41,22 @@ Record sites := {
   s_collector : bool;   (* value/list.go Map, Accept: panicOnCaller around MapAuto / FilterAuto *)
   s_producer : bool;    (* value/list.go Merge: recoverInProducer around both operands *)
   s_consumer : bool;    (* value/multiUse.go runConsumer: deferred recover calling done(err) *)
-  s_try : bool          (* value/value.go GenerateCustom (TryCatch): deferred recoverAsError around the try part *)
+  s_try : bool;         (* value/value.go GenerateCustom (TryCatch): deferred recoverAsError around the try part *)
+  s_fresh : list str    (* the methods that run the closure they are given on a fresh storage (funcGen.NewEmptyStack), so
+                           that the 10000-slot guard never sees more than one level of a recursion through them *)
 }.
 
-Definition code_sites : sites := {| s_worker := true; s_collector := true; s_producer := true; s_consumer := true; s_try := true |}.
-Definition old_sites : sites := {| s_worker := false; s_collector := false; s_producer := false; s_consumer := false; s_try := false |}.
+Definition m_list_map : str := [108;105;115;116;46;109;97;112].                         (* "list.map" *)
+Definition m_list_accept : str := [108;105;115;116;46;97;99;99;101;112;116].            (* "list.accept" *)
+Definition m_list_multiUse : str := [108;105;115;116;46;109;117;108;116;105;85;115;101]. (* "list.multiUse" *)
+
+Fixpoint mem_str (x : str) (l : list str) : bool :=
+  match l with [] => false | y :: r => str_eqb x y || mem_str x r end.
+
+Definition code_sites : sites := {| s_worker := true; s_collector := true; s_producer := true; s_consumer := true; s_try := true;
+     s_fresh := [m_list_map; m_list_accept; m_list_multiUse] |}.
+Definition old_sites : sites := {| s_worker := false; s_collector := false; s_producer := false; s_consumer := false; s_try := false;
+     s_fresh := [m_list_map; m_list_accept; m_list_multiUse] |}.
 
 (* ---------- the recursion guard (funcGen/generator.go stackStorage.set) ---------- *)
 
@@ -78,9 +89,13 @@ Inductive fault :=
 | FRecShared (top slots frames : N)
       (* runaway recursion through direct calls: every level pushes [slots] values on the caller's
          storage (the first at index [top]) and nests [frames] Go calls *)
-| FRecFresh (frames depth : N).
+| FRecFresh (frames depth : N)
       (* recursion of the given depth through a list method that runs the closure on a fresh storage
          (funcGen.NewEmptyStack in Map/Accept/multiUse): the guard never sees more than one level *)
+| FRecThrough (m : str) (slots frames depth : N).
+      (* recursion of the given depth whose recursive call sits in the closure handed to method m (as
+         "list.cross", "map.map", "static.bisection"): whether the guard counts the levels depends on
+         whether m runs the closure in a frame of the caller's storage or on a fresh one *)
 
 (* D = number of nested Go calls the goroutine stack can hold (a parameter: the Go runtime's limit
    is 1 GB by default and can be changed with debug.SetMaxStack) *)
@@ -89,13 +104,19 @@ Definition rec_shared_raw (D top slots frames : N) : raw :=
   else let levels := (guard_limit + 1 - top) / slots + 1 in   (* levels entered until a push hits the guard *)
        if D <? levels * frames then RFatal else RPanic.
 
-Definition fault_raw (D : N) (f : fault) : raw :=
+Definition fault_raw (S : sites) (D : N) (f : fault) : raw :=
   match f with
   | FValue => RVal
   | FOpErr | FBuiltinErr | FHostErr | FThrow => RErr
   | FBuiltinPanic | FHostPanic => RPanic
   | FRecShared top slots frames => rec_shared_raw D top slots frames
   | FRecFresh frames depth => if D <? frames * depth then RFatal else RVal
+  | FRecThrough m slots frames depth =>
+      let unguarded := if D <? frames * depth then RFatal else RVal in
+      if mem_str m (s_fresh S) then unguarded
+      else if slots =? 0 then unguarded
+      else if depth <=? (guard_limit + 1) / slots then unguarded      (* ends before the guard can fire *)
+      else rec_shared_raw D 0 slots frames
   end.
 
 (* ---------- programs: a fault source inside a tree of contexts ---------- *)
@@ -128,7 +149,7 @@ Variable sc : sched.
    stack of g. *)
 Fixpoint run (g : gor) (p : prog) {struct p} : raw :=
   match p with
-  | PLeaf f => fault_raw D f
+  | PLeaf f => fault_raw S D f
   | PCall q => run g q
   | PTry q =>
       match run g q with
@@ -183,19 +204,19 @@ End Run.
 (* ---------- side conditions of the partial theorems ---------- *)
 
 (* no leaf exhausts the Go stack *)
-Fixpoint leaves_ok (D : N) (p : prog) {struct p} : bool :=
+Fixpoint leaves_ok (S : sites) (D : N) (p : prog) {struct p} : bool :=
   match p with
-  | PLeaf f => negb (is_fatal (fault_raw D f))
-  | PCall q | PTry q | PStage _ q | PDown _ q | PMergeOp q | PMergeLess q => leaves_ok D q
-  | PMultiUse qs => forallb (leaves_ok D) qs
+  | PLeaf f => negb (is_fatal (fault_raw S D f))
+  | PCall q | PTry q | PStage _ q | PDown _ q | PMergeOp q | PMergeLess q => leaves_ok S D q
+  | PMultiUse qs => forallb (leaves_ok S D) qs
   end.
 
 (* no leaf is a Go panic *)
-Fixpoint panic_free (D : N) (p : prog) {struct p} : bool :=
+Fixpoint panic_free (S : sites) (D : N) (p : prog) {struct p} : bool :=
   match p with
-  | PLeaf f => negb (is_panic (fault_raw D f))
-  | PCall q | PTry q | PStage _ q | PDown _ q | PMergeOp q | PMergeLess q => panic_free D q
-  | PMultiUse qs => forallb (panic_free D) qs
+  | PLeaf f => negb (is_panic (fault_raw S D f))
+  | PCall q | PTry q | PStage _ q | PDown _ q | PMergeOp q | PMergeLess q => panic_free S D q
+  | PMultiUse qs => forallb (panic_free S D) qs
   end.
 
 (* every goroutine boundary without a recover has no panic source below it
@@ -204,8 +225,8 @@ Fixpoint guarded (S : sites) (D : N) (p : prog) {struct p} : bool :=
   match p with
   | PLeaf _ => true
   | PCall q | PTry q | PMergeLess q => guarded S D q
-  | PStage _ q => (s_worker S || panic_free D q) && guarded S D q
-  | PDown _ q => (s_collector S || panic_free D q) && guarded S D q
-  | PMergeOp q => (s_producer S || panic_free D q) && guarded S D q
-  | PMultiUse qs => forallb (fun q => (s_consumer S || panic_free D q) && guarded S D q) qs
+  | PStage _ q => (s_worker S || panic_free S D q) && guarded S D q
+  | PDown _ q => (s_collector S || panic_free S D q) && guarded S D q
+  | PMergeOp q => (s_producer S || panic_free S D q) && guarded S D q
+  | PMultiUse qs => forallb (fun q => (s_consumer S || panic_free S D q) && guarded S D q) qs
   end.
